@@ -233,12 +233,15 @@ worst = 0.0; bad = []
 for P in probs:
     x = np.linspace(P['xmin'] + 0.013, P['xmax'] - 0.017, 41)
     with contextlib.redirect_stdout(io.StringIO()):
-        a = IGEOS_Solver(**P)(x, P['t']); b = GenEOS_Solver(**P)(x, P['t'])
+        s1 = IGEOS_Solver(**P); a = s1(x, P['t']); b = GenEOS_Solver(**P)(x, P['t'])
+    # points within two internal grid cells of a wave position (also of weak waves) are excluded: documented resolution of the tabulated solver
+    waves = P['xd0'] + P['t'] * np.array(s1.Vregs, dtype=float); cell = (P['xmax'] - P['xmin']) / P['num_x_pts']
+    near = np.array([np.any(np.abs(xx - waves) <= 2.5 * cell) for xx in x])
     for n in ('density', 'pressure', 'velocity', 'specific_internal_energy'):
         sc = max(np.max(np.abs(a[n])), 1e-12); d = np.abs(a[n] - b[n]) / sc
         # points within a grid cell of a discontinuity are excluded (documented resolution)
         jump = np.abs(np.gradient(a[n], x)) * (x[1] - x[0]) / sc > 0.05
-        jump = jump | np.roll(jump, 1) | np.roll(jump, -1)
+        jump = jump | np.roll(jump, 1) | np.roll(jump, -1) | near
         m = float(np.max(d[~jump])) if np.any(~jump) else 0.0
         worst = max(worst, m)
         if m > 2e-3: bad.append((P, n, m))
